@@ -19,6 +19,8 @@ def parseSched (s : String) : Option (List WRes) :=
   if s = "-" then some []
   else (s.splitOn ",").mapM fun t =>
     if t = "E" then some (.err (errnoText "EIO"))
+    else if t = "I" then some (.err (errnoText "EINTR"))      -- a failed call is a failed call, whatever its errno:
+    else if t = "A" then some (.err (errnoText "EAGAIN"))     -- json-c does not retry, the error is reported
     else if t = "Z" then some (.n 0)
     else t.toNat?.map .n
 
@@ -114,9 +116,11 @@ def readOp (isFile : Bool) (depthS path opn dataS sched : String) : Out :=
   | some inD, some data, some sc, some pth =>
     let sizes := (sc.map fun | .n k => some k | .err _ => none)
       ++ List.replicate (data.length / Generated.fileBufSize + 2) (some huge)
+    -- (reading stops at the first failed call: its errno text is the one the message carries)
+    let etxt := (sc.findSome? fun | .err t => some t | _ => none).getD (errnoText "EIO")
     let pieces : List RRes := (serve Generated.fileBufSize data sizes).map fun
       | some p => .data p
-      | none => .err (errnoText "EIO")
+      | none => .err etxt
     let r := if isFile then fromFile env [] pth (parseOpen opn 1000) pieces
       else match inD with
         | none => fromFd env [] 77 pieces
